@@ -121,7 +121,13 @@ def __get_tokens_for_gap(
             ),
             source=lhs_token.source,
             source_start=lhs_token.source_start,
-            source_end=rhs_token.source_end,
+            # An argument-less operator such as `.` is reported through a
+            # synthetic token without a source position; highlight `lhs` then.
+            source_end=(
+                rhs_token.source_end
+                if rhs_token.source_end is not None
+                else lhs_token.source_end
+            ),
         ),
     )
 
